@@ -180,6 +180,7 @@ def verify_target(repo_root: str, relpath: str, qualname: str, contract: dict, r
             if var is not None:
                 c2 = dict(contract)
                 c2['params'] = dict(contract.get('params', {}), **var)
+                c2['requires'] = list(contract.get('requires', [])) + list(contract.get('requires_variant', {}).get(vi, []))
             menv = NpModuleEnv(repo, relpath, registry, consts)
             eng = Engine(node, c2, registry, menv, qualname, cls_name=cls)
             for ob in eng.run():
